@@ -125,5 +125,21 @@ CJSON_PUBLIC(cJSON *) cJSONUtils_GeneratePatchesCaseSensitive(cJSON * const from
 __CPROVER_requires(1)
 __CPROVER_ensures(GP_POST(1)) /*@C17*/
 __CPROVER_assigns(g_cp, g_ca_ret);
+
+/* ------------------------------------------------------------------ get_object_item (cJSON_Utils.c): the case-mode dispatcher behind pointer resolution,
+ * detach_path and the patch member lookups.  Exactly one public lookup, the case-sensitive one iff case_sensitive, with the caller's arguments. */
+struct vf_ugoi_log { const void *obj, *name; int which; const void *ret; size_t calls; } g_ugoi;
+CJSON_PUBLIC(cJSON *) cJSON_GetObjectItem(const cJSON * const object, const char * const string)
+__CPROVER_requires(1)
+__CPROVER_ensures(g_ugoi.obj == object && g_ugoi.name == string && g_ugoi.which == 0 && g_ugoi.ret == RET && g_ugoi.calls == __CPROVER_old(g_ugoi.calls) + 1)
+__CPROVER_assigns(g_ugoi);
+CJSON_PUBLIC(cJSON *) cJSON_GetObjectItemCaseSensitive(const cJSON * const object, const char * const string)
+__CPROVER_requires(1)
+__CPROVER_ensures(g_ugoi.obj == object && g_ugoi.name == string && g_ugoi.which == 1 && g_ugoi.ret == RET && g_ugoi.calls == __CPROVER_old(g_ugoi.calls) + 1)
+__CPROVER_assigns(g_ugoi);
+static cJSON *get_object_item(const cJSON * const object, const char* name, const cJSON_bool case_sensitive)
+__CPROVER_requires(1)
+__CPROVER_ensures(g_ugoi.calls == __CPROVER_old(g_ugoi.calls) + 1 && g_ugoi.obj == object && g_ugoi.name == name && g_ugoi.which == (case_sensitive ? 1 : 0) && RET == g_ugoi.ret) /*@C15 C16*/
+__CPROVER_assigns(g_ugoi);
 #endif /* VF_UTILS_WRAPPERS */
 #endif
